@@ -42,6 +42,16 @@
 //! (on-idle D tap-vkey v))` and the two actions on separate keys, L > D, L just above D and L < D,
 //! driven like the real loop, compared tick by tick with the combined model, and in plain form: the
 //! on-idle key never comes down while a hold-for-duration is pending.
+//!
+//! Part H (`c18_idlemulti.rs`): SEVERAL on-idle entries pending at once, measured against the one
+//! shared idle time: two or three entries with EQUAL timeouts (in one `multi`, armed by different keys
+//! one after the other, or both), mixed equal / different timeouts (two short + one long, one short +
+//! two long, timeouts one tick apart) and all different (control). Every pending entry whose timeout
+//! has elapsed since the shared start of the idle time fires in the tick in which it becomes due -
+//! entries due in the same tick all fire in that tick, in any order - and exactly once; operating a
+//! fired virtual key is activity, so an entry with a longer timeout that is left pending waits for a
+//! complete new idle time. Compared tick by tick with the on-idle model generalised to a set of
+//! entries, and in plain form: the keys of entries that were due together come down together.
 
 use crate::core::sim::{code_name, osc, render_hist, Ev, OutKind, Sim};
 use crate::core::{CaseOut, Check, Ctx};
@@ -52,6 +62,8 @@ use std::collections::VecDeque;
 mod rapid;
 #[path = "c18_idlehold.rs"]
 mod idlehold;
+#[path = "c18_idlemulti.rs"]
+mod idlemulti;
 
 pub struct C18Check;
 pub static C18: C18Check = C18Check;
@@ -1480,6 +1492,8 @@ enum CaseKind {
     RapidRandom(u64, u64),
     /// part G: (index into idlehold::configs_g(), first scenario, one past the last)
     IdleHold(usize, u64, u64),
+    /// part H: (index into idlemulti::configs_h(), first scenario, one past the last)
+    IdleMulti(usize, u64, u64),
 }
 
 fn backlog_one(out: &mut CaseOut, c: &ConfB, steps: &[(u64, u8)], reported: &mut std::collections::BTreeSet<String>, may_sample: bool) {
@@ -1615,6 +1629,14 @@ fn layout(ctx: &Ctx) -> Vec<CaseKind> {
             s += 512;
         }
     }
+    for (ci, c) in idlemulti::configs_h().iter().enumerate() {
+        let tot = c.total(ctx);
+        let mut s = 0;
+        while s < tot {
+            v.push(CaseKind::IdleMulti(ci, s, (s + 512).min(tot)));
+            s += 512;
+        }
+    }
     v
 }
 
@@ -1634,6 +1656,7 @@ impl Check for C18Check {
             Some(CaseKind::Rapid(ci, a, b)) => json!({"config": rapid::CONFS_R[*ci].text(), "histories": format!("rapid-fire operation histories #{a}..#{b}")}),
             Some(CaseKind::RapidRandom(ch, n)) => json!({"kind": format!("{n} seeded rapid-fire operation histories, chunk {ch}")}),
             Some(CaseKind::IdleHold(ci, a, b)) => json!({"config": idlehold::configs_g()[*ci].text(), "scenarios": format!("on-idle with pending hold-for-duration scenarios #{a}..#{b}")}),
+            Some(CaseKind::IdleMulti(ci, a, b)) => json!({"config": idlemulti::configs_h()[*ci].text(), "scenarios": format!("several on-idle entries pending scenarios #{a}..#{b}")}),
             _ => json!({"kind": "on-idle after a busy period"}),
         }
     }
@@ -1645,6 +1668,7 @@ impl Check for C18Check {
             CaseKind::Rapid(ci, a, b) => rapid::run_enumerated(&mut out, ctx, ci, a, b),
             CaseKind::RapidRandom(ch, n) => rapid::run_random(&mut out, ctx, ch, n),
             CaseKind::IdleHold(ci, a, b) => idlehold::run_chunk(&mut out, ci, a, b),
+            CaseKind::IdleMulti(ci, a, b) => idlemulti::run_chunk(&mut out, ci, a, b),
             CaseKind::Backlog(di, a, b) => {
                 let c = ConfB { d: B_DS[di].0, d2: B_DS[di].1, h: B_H };
                 let mut reported: std::collections::BTreeSet<String> = Default::default();
@@ -1830,13 +1854,14 @@ impl Check for C18Check {
         out
     }
     fn rule(&self) -> String {
-        "case = (a) one configuration (virtual key sets {key}, {key,key}, {key,layer-while-held}, {key,layer,macro}; trigger path direct fake-key call / on-press / on-release / legacy on-press-fakekey / legacy on-release-fakekey / macro item / defseq completion) and a chunk of ALL operation histories up to N operations over every (virtual key, press|release|tap|toggle) pair (macro keys: tap only); quick N=5 (4 for the larger sets on the slower paths), thorough N=7 (6); every history is compared with the reference model after every operation (OS key state, active layer) and as a whole (OS key stream, plus a probe key press showing the layer through the OS stream); the model is the same for every path, so equal effect across paths is implied; (b) hold-for-duration with durations (key 0, key 1 on the SAME virtual key) in {(10,10),(40,40),(40,10),(10,40),(15,12)} and on-idle D=10 (second key: the same on-idle action / layer-while-held / XX / (on-release tap-vkey k2)), D=40 (same action; layer-while-held in loop order) and the legacy form (D=10), each on-idle configuration driven in two orders per millisecond: blocking predicate - event - tick (an iteration of the real processing loop) and event - blocking predicate - tick: a first activation followed by ALL sequences of up to 2 further taps (thorough: plus those with 3, complete or a fixed-stride sample of 250 000 per configuration) of the same key, the second key or a plain key, at every combination of distances (hold-for-duration: press-to-press 2, 3, x-2..x+2 for each duration x, L-S-1..L-S+1, 2L; on-idle: release-to-press 3, D-1..D+2, 2D+5) and hold lengths (hold-for-duration 1, 4; on-idle: first tap 1, D/2, further taps 1, 4, D/2, D-2 and 2D+3 - the last with OS repeat events every D/2 for keys that are not normal keys), plus for hold-for-duration the complete sweep: activation by key a, second activation by key b at EVERY distance 2..max(D)+3, optionally a third tap of any of the three keys at a distance around S, L, L-S; compared tick by tick with the model (hold-for-duration: up d[k] after the latest activation made by key k; on-idle: the idle count restarts at every input event - press, release, OS repeat - and while something is queued or an output key is down); (c) on-idle armed before a long macro: fires exactly once and not before D ticks after the macro's last output. (d) hold-for-duration whose own press is still waiting in the queue: (D on key 0, D on key 1) in {(1,1),(2,2),(3,3),(5,5),(5,2),(2,5)} with two keys carrying the action for one virtual key, a plain key and a tap-hold key (timeout 6); ALL toggle scenarios (each step presses the key if it is up, releases it if it is down) of up to 4 (quick) / 5 (thorough) steps over the 4 keys and the distances {0,1,2,7} to the previous event (0 = same millisecond, 7 = longer than every D and than the tap-hold timeout), plus seeded longer scenarios (4..10 steps, D in {1,2,3,4,5,8,12}, in half of them a second duration from {1,2,3,4,5,8,12,20} on the second key, tap-hold timeout in {4,6,15,30}, bursts of same-millisecond events); the virtual key must come down once per episode and go up again D after the latest activation was processed, compared tick by tick with the queue model (one queued event consumed per tick, none while the tap-hold is undecided or during the pause after its decision; the virtual key's press and release wait behind everything queued before them), and in plain form: every press of the virtual key is followed by its release. (e) rapid-fire operation histories, judged by the model of (a) (operations applied in the order issued, whatever the spacing; final state of every virtual key, the whole OS stream and the layer activations sampled after every tick, at order level): virtual key sets {key}, {layer-while-held}, {key,layer}; paths: direct fake-key calls (all four operations on every key), physical keys (one virtual key: two keys `(multi (on-press press-vkey v) (on-release release-vkey v))`, `(on-press toggle-vkey v)`, `(on-release tap-vkey v)`, `(multi (on-press release-vkey v) (on-release press-vkey v))`; two virtual keys: two such hold keys per virtual key, a key toggling one on press and the other on release, a key tapping one on press and the other on release) and mixed (two hold keys plus the direct operations); ALL histories of up to 4 (quick; 3 for direct calls on two virtual keys) / 5 (thorough; 4; beyond 600 000 per configuration a fixed-stride sample) steps, each step a physical key (pressed if up, released if down) or a direct operation, at the distances {0,1,2,5} (one virtual key, direct and physical) or {0,1,3} ticks to the previous step (0 = same millisecond), keys still down released one tick apart at the end; plus seeded histories of 5..10 steps with bursts of same-millisecond steps. (f) on-idle while a hold-for-duration is pending: keys `(multi (hold-for-duration L vh) (on-idle D tap-vkey k1))`, `(hold-for-duration L vh)`, a plain key (another key on the held layer) and `(on-idle D tap-vkey k1)`; vh carries a layer-while-held action, a macro or a plain key; (D,L) in {(10,25),(8,9),(20,7)} in loop order (predicate - event - tick) and (10,25) also with the predicate between event and tick; a first tap of any of the four keys followed by ALL sequences of up to 2 further taps (thorough: plus 3, complete or a fixed-stride sample of 60 000 per configuration) of the four keys at the release-to-press distances {2, D-1, D+1, L-D, L-1, L+1, L+D-1, L+D+2}; compared tick by tick with the combined model (the idle count does not run while a hold-for-duration is pending, i.e. from the activation until the queued release of the held key has been processed; hold-for-duration as in (b)), and in plain form: the on-idle key never comes down while a hold-for-duration is pending. Non-trivial = history/scenario ran and was judged; distinct = (configuration, first four operations) / (configuration, events, re-arms, episodes, firings, re-arms that shorten the time left, idle restarts by release/repeat) / (configuration, events, same-millisecond events, episodes, re-arms, expiries before the press was processed, tap-hold outcomes) / (rapid configuration, events, same-millisecond pairs, operations issued while an own event was queued, presses issued while the own release was queued, expected outputs) / (idle+hold configuration, events, episodes, re-arms, firings, firings delayed by the pending hold).".into()
+        "case = (a) one configuration (virtual key sets {key}, {key,key}, {key,layer-while-held}, {key,layer,macro}; trigger path direct fake-key call / on-press / on-release / legacy on-press-fakekey / legacy on-release-fakekey / macro item / defseq completion) and a chunk of ALL operation histories up to N operations over every (virtual key, press|release|tap|toggle) pair (macro keys: tap only); quick N=5 (4 for the larger sets on the slower paths), thorough N=7 (6); every history is compared with the reference model after every operation (OS key state, active layer) and as a whole (OS key stream, plus a probe key press showing the layer through the OS stream); the model is the same for every path, so equal effect across paths is implied; (b) hold-for-duration with durations (key 0, key 1 on the SAME virtual key) in {(10,10),(40,40),(40,10),(10,40),(15,12)} and on-idle D=10 (second key: the same on-idle action / layer-while-held / XX / (on-release tap-vkey k2)), D=40 (same action; layer-while-held in loop order) and the legacy form (D=10), each on-idle configuration driven in two orders per millisecond: blocking predicate - event - tick (an iteration of the real processing loop) and event - blocking predicate - tick: a first activation followed by ALL sequences of up to 2 further taps (thorough: plus those with 3, complete or a fixed-stride sample of 250 000 per configuration) of the same key, the second key or a plain key, at every combination of distances (hold-for-duration: press-to-press 2, 3, x-2..x+2 for each duration x, L-S-1..L-S+1, 2L; on-idle: release-to-press 3, D-1..D+2, 2D+5) and hold lengths (hold-for-duration 1, 4; on-idle: first tap 1, D/2, further taps 1, 4, D/2, D-2 and 2D+3 - the last with OS repeat events every D/2 for keys that are not normal keys), plus for hold-for-duration the complete sweep: activation by key a, second activation by key b at EVERY distance 2..max(D)+3, optionally a third tap of any of the three keys at a distance around S, L, L-S; compared tick by tick with the model (hold-for-duration: up d[k] after the latest activation made by key k; on-idle: the idle count restarts at every input event - press, release, OS repeat - and while something is queued or an output key is down); (c) on-idle armed before a long macro: fires exactly once and not before D ticks after the macro's last output. (d) hold-for-duration whose own press is still waiting in the queue: (D on key 0, D on key 1) in {(1,1),(2,2),(3,3),(5,5),(5,2),(2,5)} with two keys carrying the action for one virtual key, a plain key and a tap-hold key (timeout 6); ALL toggle scenarios (each step presses the key if it is up, releases it if it is down) of up to 4 (quick) / 5 (thorough) steps over the 4 keys and the distances {0,1,2,7} to the previous event (0 = same millisecond, 7 = longer than every D and than the tap-hold timeout), plus seeded longer scenarios (4..10 steps, D in {1,2,3,4,5,8,12}, in half of them a second duration from {1,2,3,4,5,8,12,20} on the second key, tap-hold timeout in {4,6,15,30}, bursts of same-millisecond events); the virtual key must come down once per episode and go up again D after the latest activation was processed, compared tick by tick with the queue model (one queued event consumed per tick, none while the tap-hold is undecided or during the pause after its decision; the virtual key's press and release wait behind everything queued before them), and in plain form: every press of the virtual key is followed by its release. (e) rapid-fire operation histories, judged by the model of (a) (operations applied in the order issued, whatever the spacing; final state of every virtual key, the whole OS stream and the layer activations sampled after every tick, at order level): virtual key sets {key}, {layer-while-held}, {key,layer}; paths: direct fake-key calls (all four operations on every key), physical keys (one virtual key: two keys `(multi (on-press press-vkey v) (on-release release-vkey v))`, `(on-press toggle-vkey v)`, `(on-release tap-vkey v)`, `(multi (on-press release-vkey v) (on-release press-vkey v))`; two virtual keys: two such hold keys per virtual key, a key toggling one on press and the other on release, a key tapping one on press and the other on release) and mixed (two hold keys plus the direct operations); ALL histories of up to 4 (quick; 3 for direct calls on two virtual keys) / 5 (thorough; 4; beyond 600 000 per configuration a fixed-stride sample) steps, each step a physical key (pressed if up, released if down) or a direct operation, at the distances {0,1,2,5} (one virtual key, direct and physical) or {0,1,3} ticks to the previous step (0 = same millisecond), keys still down released one tick apart at the end; plus seeded histories of 5..10 steps with bursts of same-millisecond steps. (f) on-idle while a hold-for-duration is pending: keys `(multi (hold-for-duration L vh) (on-idle D tap-vkey k1))`, `(hold-for-duration L vh)`, a plain key (another key on the held layer) and `(on-idle D tap-vkey k1)`; vh carries a layer-while-held action, a macro or a plain key; (D,L) in {(10,25),(8,9),(20,7)} in loop order (predicate - event - tick) and (10,25) also with the predicate between event and tick; a first tap of any of the four keys followed by ALL sequences of up to 2 further taps (thorough: plus 3, complete or a fixed-stride sample of 60 000 per configuration) of the four keys at the release-to-press distances {2, D-1, D+1, L-D, L-1, L+1, L+D-1, L+D+2}; compared tick by tick with the combined model (the idle count does not run while a hold-for-duration is pending, i.e. from the activation until the queued release of the held key has been processed; hold-for-duration as in (b)), and in plain form: the on-idle key never comes down while a hold-for-duration is pending. (g) several on-idle entries pending at once, each `(on-idle D_i tap-vkey v_i)` with a virtual key of its own: timeouts {10,10}, {25,25}, {10,10,10}, {10,10,25}, {8,20,20}, {10,11,10}, {8,14,20} (control: never two due together) and {10,10} in the legacy on-idle-fakekey form; physical keys: one key arming all entries in one `multi`, keys arming one entry or a `multi` of two, a plain key; loop order (predicate - event - tick) for all, predicate between event and tick for the first four; a first tap of any arming key followed by ALL sequences of up to 2 further taps (thorough: plus 3, complete or a fixed-stride sample of 40 000 per configuration) of any key, held 1 or 3 ticks, at the release-to-press distances {2, S-1, S+1, S+4, L-1, L+2, S+L+3n+4, 2L+S+6n+6} (S / L = shortest / longest timeout, n = number of entries; S+1 and S+4 fall into the operation of the fired keys); compared tick by tick with the model (shared idle count as in (b); at the end of a tick EVERY pending entry whose timeout the count has reached fires - press and release of its virtual key are queued -, each exactly once; entries due in the same tick may fire in any order: the expected stream takes the order of the observed one), and in plain form: all virtual keys of entries that were due in the same tick come down, within 2(n-1) ticks of each other; at the end no entry is left waiting. Non-trivial = history/scenario ran and was judged; distinct = (configuration, first four operations) / (configuration, events, re-arms, episodes, firings, re-arms that shorten the time left, idle restarts by release/repeat) / (configuration, events, same-millisecond events, episodes, re-arms, expiries before the press was processed, tap-hold outcomes) / (rapid configuration, events, same-millisecond pairs, operations issued while an own event was queued, presses issued while the own release was queued, expected outputs) / (idle+hold configuration, events, episodes, re-arms, firings, firings delayed by the pending hold) / (several-entries configuration, events, firings, ticks with entries due together, of these armed by different keys, firings of entries left pending by an earlier firing).".into()
     }
     fn assumptions(&self) -> Vec<String> {
         vec![
             "part (a): operations are spaced so that each one has taken effect before the next (at least 4 ticks and until kanata is quiet) and the state is judged after every operation; rapid-fire operations (0, 1, 2 ... ticks apart) are judged in part (e) by the same model - operations applied in the order in which they are issued: a direct call is issued at once, a physical key's operation in the tick that processes its press / release (one queued event per tick) - on the state every virtual key ends up in and on the whole stream at order level (intermediate states cannot be attributed to single operations there)".into(),
             "part (e): virtual keys with a key or a layer-while-held action (a macro key has no state that a fast history could get wrong); at most 17 events are ever queued (keyberon's queue holds 32). toggle-vkey on the unchanged tree looks at the processed state, not at the events still queued (known finding C18:rapid:toggle-reads-state-before-own-queued-event:*, findings/C18-toggle-reads-state-before-queued-events.md): a history is put into that class only if a toggle was issued while the processed state of its virtual key differed from the state the operations issued so far lead to AND the complete observation (stream and final state) equals the reference model with exactly that reading of toggle; everything else is live".into(),
             "part (f): a pending hold-for-duration means kanata is not idle (the guide: kanata is not idle while it 'is waiting for the timeout of actions'; upstream's is_idle says the same) - from the tick in which the activation is processed until the queued release of the held key has been processed; taps of the on-idle keys are held 1 tick, of the other keys 1 or 3 ticks; L >= 7 so that the macro of a macro-carrying virtual key has finished long before the hold ends; one input event per millisecond".into(),
+            "part (g): all pending on-idle entries share one idle time (the statement's 'after kanata has been idle for the stated time'): arming any entry and every input event restart it for all of them; the operation of a virtual key fired by on-idle is activity like any other (events queued, an output key down), so an entry left pending by a firing needs a complete idle time of its own afterwards; the order among entries that become due in the same tick is not specified (any order is accepted, the keys are operated one queued event per tick); every entry has a virtual key of its own and a tap action, and entries that are identical (same virtual key, action and timeout) are one entry; one input event per millisecond; keys are held 1 or 3 ticks".into(),
             "a virtual key with a macro action is only tapped (a macro cannot be held; the guide's press/toggle wording has no meaning for it)".into(),
             "layer-while-held virtual keys are observed through Layout::current_layer after every operation and through a probe key in the OS stream at the end of each history".into(),
             "timed forms: processing discipline of DESIGN appendix A (one queued event per tick; virtual key events are queued behind pending physical events); hold-for-duration releases D ticks after the tick of the latest activation; on-idle fires in the tick in which D idle loop iterations have been counted, any input resets the count".into(),
@@ -1921,6 +1946,18 @@ impl Check for C18Check {
             ("idle_hold_firings_delayed_by_pending_hold_macro_virtual_key", 3_000),
             ("idle_hold_scenarios_where_counting_through_the_hold_fires_early_layer_virtual_key", 3_000),
             ("idle_hold_scenarios_where_counting_through_the_hold_fires_early_macro_virtual_key", 3_000),
+            ("idle_multi_scenarios", 30_000),
+            ("idle_multi_scenarios_loop_order", 20_000),
+            ("idle_multi_scenarios_legacy_form", 2_000),
+            ("idle_multi_firings", 100_000),
+            ("idle_multi_ticks_with_2_entries_due_together", 20_000),
+            ("idle_multi_ticks_with_3_entries_due_together", 3_000),
+            ("idle_multi_due_together_armed_by_one_multi", 15_000),
+            ("idle_multi_due_together_armed_by_different_keys", 5_000),
+            ("idle_multi_due_together_with_longer_entry_left_pending", 5_000),
+            ("idle_multi_firings_of_entry_left_pending_by_earlier_firing", 20_000),
+            ("idle_multi_inputs_while_fired_keys_queued", 15_000),
+            ("idle_multi_rearms_of_pending_entry", 15_000),
         ]
     }
     fn exhaustive(&self, _ctx: &Ctx) -> bool {
